@@ -589,3 +589,236 @@ def _has_lit(ty):
     if ty[0] == "union":
         return any(_has_lit(t) for t in ty[1])
     return False
+
+
+# ----------------------------------------------------------------- witnesses
+
+_FOREIGN = [None, "zz", 1.5, b"z", (9, 9, 9, 9), 12345]
+
+
+def _uni():
+    from pv.universe import UNIVERSE
+
+    return [o.obj for o in UNIVERSE]
+
+
+def _hashable(o):
+    try:
+        hash(o)
+        return True
+    except TypeError:
+        return False
+
+
+def _dedupe(objs, limit):
+    out, seen = [], set()
+    for o in objs:
+        try:
+            k = repr(canon(o)) + type(o).__name__
+        except Exception:
+            k = str(id(o))
+        if k in seen:
+            continue
+        seen.add(k)
+        out.append(o)
+        if len(out) >= limit:
+            break
+    return out
+
+
+def inhabitants(ty, limit=12, _depth=0):
+    """Objects that are members of ty (checked with mem): universe members plus
+    structurally built witnesses."""
+    out = [o for o in _uni() if mem(o, ty) is True]
+    out = structural(ty, _depth) + out
+    out = [o for o in out if mem(o, ty) is True]
+    return _dedupe(out, limit)
+
+
+def structural(ty, _depth=0):
+    tag = ty[0]
+    if _depth > 3:
+        return []
+    sub = lambda t, n=3: inhabitants(t, n, _depth + 1)
+    if tag == "lit":
+        return [ty[1]]
+    if tag == "union":
+        out = []
+        for t in ty[1]:
+            out += structural(t, _depth)[:3]
+        return out
+    if tag == "gen":
+        c, args = ty[1], ty[2]
+        if c in (list, cabc.Sequence, cabc.Iterable, cabc.Collection, cabc.MutableSequence, cabc.Container, cabc.Reversible) and args:
+            ws = sub(args[0])
+            out = [[]] + [[w] for w in ws] + ([[ws[0], ws[-1]]] if ws else [])
+            if c is not list:
+                out += [(), tuple(ws[:2])]
+            return out
+        if c in (set, frozenset, cabc.Set, cabc.MutableSet) and args:
+            ws = [w for w in sub(args[0]) if _hashable(w)]
+            k = frozenset if c is frozenset else set
+            return [k()] + [k([w]) for w in ws] + ([k(ws[:2])] if len(ws) > 1 else [])
+        if (c is dict or c in _MAP_ABCS) and len(args) == 2:
+            ks = [w for w in sub(args[0]) if _hashable(w)]
+            vs = sub(args[1])
+            out = [{}]
+            if ks and vs:
+                out += [{ks[0]: vs[0]}, {ks[-1]: vs[-1]}, dict(zip(ks, vs + vs))]
+            return out
+        return []
+    if tag == "tuple":
+        c, members = ty[1], ty[2]
+        combos = [[]]
+        for many, t in members:
+            ws = sub(t, 2)
+            if not ws and not many:
+                return []
+            nxt = []
+            for base in combos[:6]:
+                if many:
+                    nxt.append(base)
+                    for w in ws:
+                        nxt.append(base + [w])
+                    if ws:
+                        nxt.append(base + [ws[0], ws[-1]])
+                else:
+                    for w in ws:
+                        nxt.append(base + [w])
+            combos = nxt
+        out = []
+        for cmb in combos[:10]:
+            try:
+                out.append(c(cmb))
+            except TypeError:
+                pass
+        return out
+    if tag == "td":
+        items, extra = dict(ty[1]), ty[2]
+        base = {}
+        for k, (t, required) in items.items():
+            ws = sub(t, 2)
+            if not ws:
+                if required:
+                    return []
+                continue
+            if required:
+                base[k] = ws[0]
+        out = [dict(base)]
+        full = dict(base)
+        for k, (t, required) in items.items():
+            ws = sub(t, 2)
+            if ws:
+                full[k] = ws[-1]
+        out.append(full)
+        return out
+    if tag == "dictinc":
+        c, pairs = ty[1], ty[2]
+        d = {}
+        for kt, vt, many, required in pairs:
+            ks = [w for w in sub(kt, 2) if _hashable(w)]
+            vs = sub(vt, 2)
+            if ks and vs and (required or not many):
+                d[ks[0]] = vs[0]
+        return [d]
+    if tag == "callable":
+        return [len]
+    if tag == "tv":
+        if ty[1] is not None:
+            return structural(ty[1], _depth)
+        out = []
+        for t in ty[2]:
+            out += structural(t, _depth)[:2]
+        return out
+    return []
+
+
+def near_misses(ty, limit=6):
+    """Objects of the right outer shape that are NOT members (checked with mem)."""
+    out = []
+    tag = ty[0]
+    if tag == "gen" and ty[2]:
+        c, args = ty[1], ty[2]
+        for f in _FOREIGN:
+            if c in (list, cabc.Sequence, cabc.Iterable, cabc.Collection):
+                out.append([f])
+                ws = inhabitants(args[0], 1)
+                if ws:
+                    out.append([ws[0], f])
+            elif c in (set, frozenset):
+                out.append(c([f]))
+            elif (c is dict or c in _MAP_ABCS) and len(args) == 2:
+                ks = [w for w in inhabitants(args[0], 2) if _hashable(w)]
+                vs = inhabitants(args[1], 2)
+                if ks:
+                    out.append({ks[0]: f})
+                if vs:
+                    out.append({f: vs[0]})
+    elif tag == "tuple":
+        for w in structural(ty)[:4]:
+            if isinstance(w, tuple):
+                out.append(w + (None,))
+                out.append(w[:-1])
+                if w:
+                    for f in _FOREIGN[:3]:
+                        out.append(w[:-1] + (f,))
+                        out.append((f,) + w[1:])
+    elif tag == "td":
+        for w in structural(ty)[:2]:
+            for k in list(w):
+                d = dict(w)
+                del d[k]
+                out.append(d)
+                for f in _FOREIGN[:3]:
+                    d = dict(w)
+                    d[k] = f
+                    out.append(d)
+    elif tag == "union":
+        for t in ty[1]:
+            out += near_misses(t, 3)
+    out = [o for o in out if mem(o, ty) is False]
+    return _dedupe(out, limit)
+
+
+def to_src(o):
+    """Source expression (in universe.NS) for an object, or None."""
+    import enum as _enum
+
+    from pv.universe import NS
+
+    if o is None or isinstance(o, (bool, int, float, complex, str, bytes)) and not isinstance(o, _enum.Enum):
+        if isinstance(o, float) and (o != o or o in (float("inf"), float("-inf"))):
+            return None
+        return repr(o)
+    if isinstance(o, _enum.Enum):
+        return f"{type(o).__name__}.{o.name}" if type(o).__name__ in NS else None
+    if isinstance(o, (list, tuple, set, frozenset)):
+        parts = [to_src(x) for x in o]
+        if any(p is None for p in parts):
+            return None
+        if isinstance(o, list):
+            return "[" + ", ".join(parts) + "]"
+        if isinstance(o, tuple):
+            return "(" + ", ".join(parts) + ("," if len(parts) == 1 else "") + ")"
+        if isinstance(o, set):
+            return "{" + ", ".join(parts) + "}" if parts else "set()"
+        return "frozenset({" + ", ".join(parts) + "})" if parts else "frozenset()"
+    if isinstance(o, dict):
+        parts = [(to_src(k), to_src(v)) for k, v in o.items()]
+        if any(a is None or b is None for a, b in parts):
+            return None
+        return "{" + ", ".join(f"{a}: {b}" for a, b in parts) + "}"
+    if isinstance(o, type):
+        for k, v in NS.items():
+            if v is o and k.isidentifier() and k[0] != "_":
+                return k
+        return None
+    name = type(o).__name__
+    if name in ("A", "B", "C", "G", "WithX", "Closer", "Tr", "TrSub") and type(o).__module__ == "pv_vocab":
+        return f"{name}()"
+    if name == "D" and type(o).__module__ == "pv_vocab":
+        return f"D({o.x!r}, {o.y!r})"
+    for k, v in NS.items():
+        if v is o and k.isidentifier() and k[0] != "_":
+            return k
+    return None
